@@ -7,6 +7,7 @@ ordinary write:
     Clone::clone_from(p, q)     =>   t = Clone::clone(q);  *p = move t
     d = Option::replace(p, v)   =>   d = copy *p;  *p = Some(v)
     d = Option::take(p)         =>   d = copy *p;  *p = None
+    d = cond.then_some(v)       =>   if cond { d = Some(v) } else { d = None }
 """
 
 
@@ -58,6 +59,19 @@ def desugar_body(raw):
                      desugared="mem::take"),
             ]
             blk["term"] = dict(meta, k="goto", target=t["target"])
+        elif name == "then_some" and "bool" in decl and len(args) == 2 and t["target"] is not None and \
+                args[0].get("k") in ("copy", "move") and not args[0]["place"]["proj"]:
+            # d = cond.then_some(v)   =>   if cond { d = Some(v) } else { d = None }
+            ns = len(blocks)
+            blocks.append({"cleanup": False,
+                           "stmts": [dict(meta, k="assign", lhs=t["dest"], desugared="then_some",
+                                          rv={"k": "aggregate", "agg": "adt", "adt": "Option", "variant": "Some", "fields": ["0"], "ops": [args[1]]})],
+                           "term": dict(meta, k="goto", target=t["target"])})
+            blocks.append({"cleanup": False,
+                           "stmts": [dict(meta, k="assign", lhs=t["dest"], desugared="then_some",
+                                          rv={"k": "aggregate", "agg": "adt", "adt": "Option", "variant": "None", "fields": [], "ops": []})],
+                           "term": dict(meta, k="goto", target=t["target"])})
+            blk["term"] = dict(meta, k="switch", op=args[0], targets=[[0, ns + 1]], otherwise=ns, op_ty="bool")
         elif decl == "std::clone::Clone::clone_from" and name == "clone_from" and len(args) == 2 and t["target"] is not None:
             ty = c.get("self_arg_ty") or _garg(c)
             pl = _deref_place(args[0], ty)
